@@ -347,13 +347,38 @@ def s10_region(bpj, harvest):
 
 
 def s16_region(bpj, harvest):
-    """known finding S16: three or more independent producers of one signal name at one consumer
-    cannot be separated by two wire colours (producers summed on purpose by one wire merge count once)"""
+    """known finding S16: the conflict graph -- producers of one signal name that share a consumer must
+    arrive on different colours -- is not 2-colourable (e.g. three independent producers of one signal at
+    one consumer, or an odd cycle across consumers); the compiler only logs this and proceeds.
+    Producers summed on purpose by one wire merge count as one."""
     groups = {}
     for src, snk, sig, col, *m in harvest["edges"]:
         mid = m[0] if m else None
-        groups.setdefault((snk, sig), set()).add(("merge", mid) if mid else ("src", src))
-    return any(len(v) >= 3 for v in groups.values())
+        groups.setdefault((snk, sig), set()).add(("merge", mid, sig) if mid else ("src", src, sig))
+    adj = {}
+    for nodes in groups.values():
+        nodes = sorted(nodes)
+        for a in nodes:
+            adj.setdefault(a, set())
+        for i, a in enumerate(nodes):
+            for b_ in nodes[i + 1:]:
+                adj[a].add(b_)
+                adj[b_].add(a)
+    colour = {}
+    for start in adj:
+        if start in colour:
+            continue
+        colour[start] = 0
+        stack = [start]
+        while stack:
+            u = stack.pop()
+            for v in adj[u]:
+                if v not in colour:
+                    colour[v] = 1 - colour[u]
+                    stack.append(v)
+                elif colour[v] == colour[u]:
+                    return True
+    return False
 
 
 def s17_region(bpj, harvest):
